@@ -21,7 +21,10 @@
 //	ws*: + hs=<ok|...> (request line and every header of the upgrade request arrive at the backend, status and
 //	every header of the 101 response arrive at the client, values unchanged) x=<headers bfe ADDED to the 101>
 //
-// op     : big;p=<proto>;c=<n>;b=<n>;slow=<c|b|->;x=<c|b>   n patterned bytes each way, optional late reader (back-pressure)
+// op     : big;p=<proto>;c=<n>;b=<n>;slow=<c|b|->;x=<c|b>[;k=<n>]   n patterned bytes each way, optional late reader
+//
+//	(back-pressure), optionally k such tunnels concurrently (each with its own pattern)
+//
 // result : B=<n>/<ok|bad@off> C=<n>/<ok|bad@off> bclosed=.. cclosed=..   (pattern verified by the harness)
 // op     : wr;v=<t10c|t11c|t12c|t12g>;n=<len>,...            io.Writer contract of bfe_tls.Conn.Write
 // Verdicts compare complete byte streams at the end; the 30 s watchdogs only bound the wait, they never decide.
@@ -774,16 +777,52 @@ func execBig(f []string) string {
 	if _, err := fmt.Sscanf(kv["b"], "%d", &nb); err != nil || nb < 0 || nb > 1<<28 {
 		return "bad-op"
 	}
+	par := 1 // k=<n>: n tunnels of the same shape in flight at the same time, each with its own byte pattern
+	if v, ok := kv["k"]; ok {
+		if _, err := fmt.Sscanf(v, "%d", &par); err != nil || par < 1 || par > 4 {
+			return "bad-op"
+		}
+		delete(kv, "k")
+	}
 	slow, closer := kv["slow"], kv["x"]
 	if !tunnelProtos[kv["p"]] || (slow != "c" && slow != "b" && slow != "-") || (closer != "c" && closer != "b") || len(kv) != 5 {
 		return "bad-op"
 	}
-	t, e := openTunnel(kv["p"], nil, nil)
-	defer t.close()
-	if e != "" {
-		return e
+	// tunnels are opened one after the other (so that each gets its own backend connection), then run concurrently
+	var ts []*tunnel
+	defer func() {
+		for _, t := range ts {
+			t.close()
+		}
+	}()
+	for i := 0; i < par; i++ {
+		t, e := openTunnel(kv["p"], nil, nil)
+		ts = append(ts, t)
+		if e != "" {
+			return e
+		}
 	}
-	// client receives the backend's stream (salt 'b'), backend receives the client's (salt 'c')
+	out := make([]string, par)
+	var wg sync.WaitGroup
+	for i, t := range ts {
+		wg.Add(1)
+		go func(i int, t *tunnel) {
+			defer wg.Done()
+			out[i] = runBig(t, kv["p"], nc, nb, slow, closer, byte(i))
+		}(i, t)
+	}
+	wg.Wait()
+	for i := 1; i < par; i++ {
+		if out[i] != out[0] {
+			return fmt.Sprintf("par-differ[%d]:%s", i, strings.ReplaceAll(out[i], " ", "_")) + " " + out[0]
+		}
+	}
+	return out[0]
+}
+
+func runBig(t *tunnel, proto string, nc, nb int, slow, closer string, shift byte) string {
+	sc, sb := 'c'+shift*7, 'b'+shift*7 // per-tunnel patterns: cross-talk between concurrent tunnels shows as bad@offset
+	// client receives the backend's stream (salt sb), backend receives the client's (salt sc)
 	rc, rb := newBigRecv(), newBigRecv()
 	cWrote, bWrote := make(chan struct{}), make(chan struct{}) // closed when that side has written 1 MiB (or all)
 	cFin, bFin := make(chan error, 1), make(chan error, 1)
@@ -796,10 +835,10 @@ func execBig(f []string) string {
 		bGate = make(chan struct{})
 		go func() { <-cWrote; <-fastDone; close(bGate) }()
 	}
-	go rc.read(t.cli, 'b', cGate, slow == "c")
-	go rb.read(t.bk, 'c', bGate, slow == "b")
-	go bigWrite(t.cli, nc, 'c', cWrote, cFin)
-	go bigWrite(t.bk, nb, 'b', bWrote, bFin)
+	go rc.read(t.cli, sb, cGate, slow == "c")
+	go rb.read(t.bk, sc, bGate, slow == "b")
+	go bigWrite(t.cli, nc, sc, cWrote, cFin)
+	go bigWrite(t.bk, nb, sb, bWrote, bFin)
 	// the fast direction completes first (its receiver has everything), which releases the late reader
 	if slow == "c" {
 		rb.waitFor(4*wait, func() bool { return rb.n >= nc || rb.end })
@@ -828,7 +867,7 @@ func execBig(f []string) string {
 		return fmt.Sprintf("%d/ok", r.n)
 	}
 	res := fmt.Sprintf("B=%s C=%s bclosed=%d cclosed=%d", fm(rb), fm(rc), b2i(rb.end), b2i(rc.end))
-	if isWS(kv["p"]) {
+	if isWS(proto) {
 		res += " hs=" + t.hs + " x=" + t.hx
 	}
 	return res
@@ -919,8 +958,12 @@ func genBig(r *vh.Rand) string {
 		}
 		return r.Range(8<<20, 24<<20) // beyond what the socket buffers of both hops can hold
 	}
-	return fmt.Sprintf("big;p=%s;c=%d;b=%d;slow=%s;x=%s", allProtos[r.Intn(len(allProtos))], mb(), mb(),
-		r.Pick("c", "b", "-"), r.Pick("c", "b"))
+	k := ""
+	if r.Chance(1, 2) {
+		k = fmt.Sprintf(";k=%d", r.Range(2, 3)) // concurrent tunnels
+	}
+	return fmt.Sprintf("big;p=%s;c=%d;b=%d;slow=%s;x=%s%s", allProtos[r.Intn(len(allProtos))], mb(), mb(),
+		r.Pick("c", "b", "-"), r.Pick("c", "b"), k)
 }
 
 // quick tier: mostly plain websocket / bfe_tls tunnels with moderate sizes; the crypto/tls-client variants, wss, the
@@ -1039,6 +1082,9 @@ func pre(emit func(string), thorough bool) {
 	// back-pressure: more than the socket buffers hold, late reader on either side
 	emit("big;p=ws;c=1000;b=12000000;slow=c;x=c")
 	emit("big;p=tls;c=12000000;b=1000;slow=b;x=b")
+	// three tunnels in flight at once, each with its own pattern (no cross-talk through shared buffers)
+	emit("big;p=ws;c=3000000;b=3000000;slow=-;x=c;k=3")
+	emit("big;p=t10c;c=2000000;b=2000000;slow=c;x=b;k=2")
 	if thorough {
 		emit("big;p=wss0;c=30000000;b=30000000;slow=c;x=b")
 		emit("big;p=t10c;c=40000000;b=100;slow=b;x=c")
